@@ -805,7 +805,7 @@ def main(rep: Report, replay: dict | None) -> None:
 
     t0 = time.time()
     rng = random.Random(rep.seed * 9176 + 18)
-    n = 150 if quick else 3000
+    n = 100 if quick else 3000
     for i in range(n):
         ident = ["kitty", "konsole", "kitty", "konsole", "other"][i % 5]
         scn = random_script(rng, ident, rng.randint(12, 40), leaf=(i % 4 == 0), bad=(i % 3 == 0))
